@@ -109,8 +109,8 @@ void c17_lift(vf::Tape & t, vf::Ctx & ctx)
   ctx.le("project_so2(lift_so3(a))==a", static_cast<double>(maxabs<LD>(MatL(refM(s2.lift_so3().project_so2()) - refM(s2)))), tl);
   ctx.le("lift_so3(ab)==lift_so3(a)lift_so3(b)",
          static_cast<double>(maxabs<LD>(MatL(refM((s2 * SO2<Sc>(b.so2())).lift_so3()) - refM(s2.lift_so3()) * refM(SO2<Sc>(b.so2()).lift_so3())))), 4 * tl);
-  // injective: different planar elements have different lifts (lift is inverted by project)
-  if (!(Ma - Mb).isZero(0)) ctx.require("lift injective", !(refM(la) - refM(lb)).isZero(0));
+  // injectivity is the clause project(lift(a)) == a above (an exact 'different inputs give different lifts' test
+  // is meaningless at rounding resolution: two SO2f elements 1e-9 apart have the same float angle)
 }
 
 // C1 factors as scaling() times so2(); rot_x/y/z(t) == exp(t e_i)
